@@ -285,9 +285,11 @@ def main():
     for sc in SCENARIOS:
         plan.append((sc, 2, 1, 'st', 1 if not thorough else 2))
     plan.append(('all', 2, 1, 'xw', 0))
+    plan.append(('all', 2, 1, 'xt', 0))
     plan.append(('keys', 2, 2, 'st', 1))
     plan.append(('keys', 2, 1, 'xw', 1 if thorough else 0))
     plan.append(('sort', 2, 1, 'xw', 1 if thorough else 0))
+    plan.append(('keys', 2, 1, 'xt', 1 if thorough else 0))
     if thorough:
         plan.append(('all', 3, 1, 'st', 1))
         plan.append(('sort', 3, 1, 'st', 2))
@@ -315,7 +317,7 @@ def main():
     env = dict(os.environ)
     env['LD_LIBRARY_PATH'] = ':'.join(LIBDIRS)
     env['TSAN_OPTIONS'] = 'exitcode=66:halt_on_error=0'
-    for (sc, src) in [('all', 'st'), ('all', 'xw'), ('sort', 'st'), ('format', 'st')] + ([(x, 'st') for x in SCENARIOS[1:]] if thorough else []):
+    for (sc, src) in [('all', 'st'), ('all', 'xw'), ('all', 'xt'), ('sort', 'st'), ('format', 'st')] + ([(x, 'st') for x in SCENARIOS[1:]] if thorough else []):
         for k in range(3 if thorough else 1):
             try:
                 pr = subprocess.run([os.path.join(vlib.HBIN, 'c07free'), sc, '3' if k == 2 else '2', '20', src], env=env,
